@@ -210,6 +210,75 @@ def _final_room(lr_cls):
     raise Untranslatable(f"_LiveRender.__rich_console__: bound `{bound}`")
 
 
+_LR_BODY_ASIS = [
+    "style = console.get_style(self.style)",
+    "lines = console.render_lines(self.renderable, options, style=style, pad=False)",
+    "_Segment = Segment",
+    "shape = _Segment.get_shape(lines)",
+    "if self._shape is None:\n    self._shape = shape\nelse:\n    width1, height1 = shape\n    width2, height2 = self._shape\n"
+    "    self._shape = (max(width1, min(options.max_width, width2)), max(height1, height2))",
+    "width, height = self._shape",
+    "lines = _Segment.set_shape(lines, width, height)",
+    "for last, line in loop_last(lines):\n    yield from _Segment.make_control(line)\n    if not last:\n"
+    "        yield _Segment.line(is_control=True)",
+]
+
+
+def _lr_crops(cls):
+    """LiveRender.__rich_console__ is pinned statement by statement (the model of the growing shape was
+    written for exactly this body); the only known variant crops the lines to the page height first"""
+    fn = find_func(cls.body, "__rich_console__")
+    body = [_src(st) for st in fn.body if not (isinstance(st, ast.Expr) and isinstance(st.value, ast.Constant))]
+    if body == _LR_BODY_ASIS:
+        return False
+    fixed = _LR_BODY_ASIS[:3] + ["lines = lines[:console.size.height]"] + _LR_BODY_ASIS[3:]
+    if body == fixed:
+        return True
+    for i, (a, b) in enumerate(zip(body, fixed)):
+        if a != b:
+            raise Untranslatable(f"LiveRender.__rich_console__: statement {i} is `{a[:60]}`")
+    raise Untranslatable("LiveRender.__rich_console__: unexpected number of statements")
+
+
+def _status_facts(repo, live_cls):
+    """rich/status.py: Status is a thin wrapper; pin exactly what the model assumes about it"""
+    tree, _ = parse(repo, "rich/status.py")
+    st = find_class(tree, "Status")
+
+    def body(name):
+        fn = find_func(st.body, name)
+        return [_src(x) for x in fn.body if not (isinstance(x, ast.Expr) and isinstance(x.value, ast.Constant))]
+
+    init = find_func(st.body, "__init__")
+    live_calls = [n for n in ast.walk(init) if isinstance(n, ast.Call) and _src(n.func) == "Live"]
+    if len(live_calls) != 1:
+        raise Untranslatable("Status.__init__: expected exactly one Live(...) call")
+    kw = {k.arg: k.value for k in live_calls[0].keywords}
+    if None in kw:
+        raise Untranslatable("Status.__init__: Live(**kwargs)")
+    if len(live_calls[0].args) != 1 or _src(live_calls[0].args[0]) != "self.renderable":
+        raise Untranslatable("Status.__init__: Live's renderable is not self.renderable")
+    transient = "transient" in kw and isinstance(kw["transient"], ast.Constant) and kw["transient"].value is True
+    if "transient" in kw and not isinstance(kw["transient"], ast.Constant):
+        raise Untranslatable("Status.__init__: transient is not a constant")
+    # overflow mode: the keyword if given, else the default of Live.__init__
+    linit = find_func(live_cls.body, "__init__")
+    names = [a.arg for a in linit.args.kwonlyargs]
+    if "vertical_overflow" not in names:
+        raise Untranslatable("Live.__init__: no keyword-only vertical_overflow")
+    default = linit.args.kw_defaults[names.index("vertical_overflow")]
+    node = kw.get("vertical_overflow", default)
+    mode = _const_str(node, "vertical_overflow")
+    if mode not in ("crop", "ellipsis", "visible"):
+        raise Untranslatable(f"vertical_overflow {mode!r}")
+    upd = body("update")
+    refreshes = bool(upd) and upd[-1] == "self._live.update(self.renderable, refresh=True)"
+    delegates = body("start") == ["self._live.start()"] and body("stop") == ["self._live.stop()"] \
+        and body("__enter__") == ["self.start()", "return self"] and body("__exit__") == ["self.stop()"]
+    grid = body("renderable") == ["table = Table.grid(padding=1)", "table.add_row(self._spinner, self.status)", "return table"]
+    return transient, ["crop", "ellipsis", "visible"].index(mode), refreshes, delegates, grid
+
+
 def _show_cursor(repo):
     tree, _ = parse(repo, "rich/console.py")
     fn = find_func(find_class(tree, "Console").body, "show_cursor")
@@ -274,4 +343,15 @@ def gen_live_codes(repo):
     out.append(f"Definition progress_stop_resets_shape : bool := {b(ev['progress_stop'] and ev['progress_stop'][-1] == EV['shape=None'])}.\n")
     out.append("(* _LiveRender crops the last frame of a transient display to one row less than the page *)\n")
     out.append(f"Definition live_transient_final_room : bool := {b(_final_room(lr))}.\n")
+    tr, mode, refreshes, delegates, grid = _status_facts(repo, live)
+    out.append("(* rich/status.py: Status = Live(self.renderable, transient=..., default overflow); update() ends with\n"
+               "   _live.update(self.renderable, refresh=True); start/stop/__enter__/__exit__ delegate; the frame is a\n"
+               "   Table.grid row (spinner, status) *)\n")
+    out.append(f"Definition status_live_transient : bool := {b(tr)}.\n")
+    out.append(f"Definition status_overflow_mode : Z := {mode}.\n")
+    out.append(f"Definition status_update_refreshes : bool := {b(refreshes)}.\n")
+    out.append(f"Definition status_delegates : bool := {b(delegates)}.\n")
+    out.append(f"Definition status_frame_is_grid_row : bool := {b(grid)}.\n")
+    out.append("(* live_render.LiveRender (Progress) crops what it renders to the page height *)\n")
+    out.append(f"Definition live_render_crops_to_page : bool := {b(_lr_crops(cls))}.\n")
     return "".join(out)
